@@ -82,6 +82,10 @@ def program_scripts(tier):
     add('GY = Y + {aa} * {a} + <ee> - <e>\nY = GY[-1] + YY + Y_[1]', 'names')
     add('C = PC[-1] + C[-1] + CC[-1] + t + index + solved_values', 'names')
     add('X1 = X11 + X1[-1] + X[1] + {X_1}', 'names')
+    # offsets of ten and more; left-hand sides with a lead or a lag (the assignment lands in another period than t)
+    add('Y = S[-12] + 0.5 * Y[-10] + X[11]', 'offsets')
+    add('K[1] = 0.875 * K + I\nI = 0.25 * K[-1] + X', 'lhs-offsets')
+    add('Y[-1] = 0.5 * X + Z[1]\nW[2] = Y[-1] + W', 'lhs-offsets')
     for n in (30, 60):
         add('Y = ' + ' + '.join('{p%d} * X%d[-1]' % (i, i) for i in range(n)), 'long')
         add('Y = ' + ' * '.join('(X%d + {q%d})' % (i, i) for i in range(n)), 'long')
@@ -168,6 +172,17 @@ def compare_models(Py, F, tier, acc=None):
             out.append((kind, detail))
 
     n = 0
+    # the two classes are built with the same constructor arguments: a non-default default_value, some series passed by keyword
+    first = (list(Py.NAMES) or [None])[0]
+    for kwargs in (dict(default_value=8.0), dict(default_value=-0.5, **({first: 2.0} if first else {})), dict(dtype=float, default_value=1.5)):
+        a, b = Py(range(L), **kwargs), F(range(L), **kwargs)
+        n += 1
+        if not close(a.values, b.values, 0) or a.status.tolist() != b.status.tolist():
+            note('construct', dict(kwargs={k: str(v) for k, v in kwargs.items()}, python=a.values[:, 0].tolist()[:4], fortran=b.values[:, 0].tolist()[:4]))
+        t = Py.LAGS
+        ra, rb = outcome(a.solve_t, t, max_iter=5, failures='ignore'), outcome(b.solve_t, t, max_iter=5, failures='ignore')
+        if ra != rb or not close(a.values, b.values, 1e-10):
+            note('solve_t:constructed-with-arguments', dict(kwargs={k: str(v) for k, v in kwargs.items()}, python=ra, fortran=rb))
     # evaluate at every position, both spellings, infeasible ones included
     for t in range(-L - 1, L + 1):
         a, b = fill(Py(range(L)), 0, L), fill(F(range(L)), 0, L)
